@@ -18,6 +18,9 @@ import Driver.Bucket
                                                    w:<errv> | j1:<errv> | j2:<errv>:<errv>) -> err|ok + Puts attempted
     archwk <tar|zip> <source kind> <errv>          Tar/Zip into a writer failing with that value
     walkvanish <source kind> <helper> <change>     an entry of the walked directory vanishes before it is visited
+    rput <helper> <atomic 0|1> <old: hexpath=content,...|-> <jobs> <faults>   REAL write(2)/close(2) failures of the
+                                                   files behind a disk bucket (part X): -> err|ok:<count>|<dump>
+    dclose <atomic 0|1> <first close failed 0|1>   the SECOND Close of an object -> closed | not-closed
   The walk lines are evaluated with WalkRule.fixed (handoff/C15-walk-callback-error.diff).
   chunks: c1+c2+... or "-" (no chunk); faults: hexpath:<p|w|c>:<idx>,... or "-".
   The helpers' error plumbing is instantiated with the REGENERATED BufGen.AstFacts.facts.
@@ -129,6 +132,15 @@ def handle : List String → String
     match staleListing change with
     | some l => "ok|missing-survivors=" ++ toString ((l.filter (!·)).length - visitStale .fixed l)
     | none => "bad-op"
+  | ["rput", helper, atm, old, js, fs] =>
+    match realHelper fx helper, parseJobs old, parseJobs js, parseSched fs with
+    | some (joins, outer, par), some o, some jobs, some s =>
+      let m : Mem := o.map fun (p, cs) => (p, joinContent cs)
+      let r := realAll .asCoded par joins outer (atm == "1") s ⟨m, []⟩ jobs
+      res r.1 ++ ":" ++ toString (if par then r.2.2 else 0) ++ "|" ++ dump r.2.1.mem
+    | _, _, _, _ => "bad-op"
+  | ["dclose", atm, _first] =>
+    if secondCloseIsErrClosed .asCoded (atm == "1") then "closed" else "not-closed"
   | ["wobj", helper, h, cs, fs] =>
     match hexDecode h, parseSched fs with
     | some p, some s =>
